@@ -8,6 +8,7 @@ import (
 
 	"github.com/gofiber/fiber/v3"
 
+	"verifharness/internal/drive"
 	"verifharness/internal/gen"
 )
 
@@ -68,6 +69,10 @@ type treeSpec struct {
 	RoutesFirst   bool      `json:"routes_first"` // endpoints registered before the child mounts
 	CustomCtx     bool      `json:"custom_ctx"`   // root uses NewCtxFunc (customRequestHandler path of router.go)
 	MixedCase     bool      `json:"mixed_case"`   // some mount prefixes contain upper-case letters
+	// StartAt >= 0: the root app is started (Handler() and one served request) after that many
+	// registration steps (middleware, routes, mounts) of the construction, i.e. the tree is
+	// built incrementally around a first start-up. -1: built completely before the first start.
+	StartAt int `json:"start_at"`
 }
 
 type customCtx struct {
@@ -79,6 +84,11 @@ type plan struct {
 	Pos  int `json:"pos"`
 	Kind int `json:"kind"`
 	Code int `json:"code"`
+	// A status put on the response before the error reaches the framework (0 = none):
+	// PreWhere&1 the first scripted middleware reached sets it before calling Next,
+	// PreWhere&2 the raising handler sets it just before it returns the error.
+	PreStatus int `json:"pre_status,omitempty"`
+	PreWhere  int `json:"pre_where,omitempty"`
 }
 
 type reqSpec struct {
@@ -181,6 +191,7 @@ type slot struct {
 	epN    int
 	ep     int
 	mwMask uint32
+	preSet int // how often a scripted status was put on the response
 
 	_ [64]byte // keep slots of different goroutines on different cache lines
 }
@@ -196,11 +207,16 @@ func (s *slot) reset(p plan) {
 	s.epN = 0
 	s.ep = -1
 	s.mwMask = 0
+	s.preSet = 0
 }
 
-func (s *slot) raise() error {
+func (s *slot) raise(c fiber.Ctx) error {
 	var err error
 	p := s.plan
+	if p.PreStatus != 0 && p.PreWhere&2 != 0 {
+		c.Status(p.PreStatus)
+		s.preSet++
+	}
 	switch p.Kind {
 	case kFiber:
 		err = fiber.NewError(p.Code)
@@ -261,12 +277,16 @@ func (r *recorder) middleware(i int) fiber.Handler {
 	return func(c fiber.Ctx) error {
 		s := r.slot(c)
 		s.mwMask |= 1 << uint(i)
+		if s.plan.PreStatus != 0 && s.plan.PreWhere&1 != 0 && s.preSet == 0 {
+			c.Status(s.plan.PreStatus)
+			s.preSet++
+		}
 		if s.plan.App == i && s.plan.Pos == posMwPre && s.raised == 0 {
-			return s.raise()
+			return s.raise(c)
 		}
 		err := c.Next()
 		if s.plan.App == i && s.plan.Pos == posMwPost && s.raised == 0 {
-			return s.raise()
+			return s.raise(c)
 		}
 		return err
 	}
@@ -279,7 +299,7 @@ func (r *recorder) endpoint(i int) fiber.Handler {
 		s.epN++
 		s.ep = i
 		if s.plan.App == i && s.plan.Pos == posEp && s.raised == 0 {
-			return s.raise()
+			return s.raise(c)
 		}
 		return c.SendString(body)
 	}
@@ -311,14 +331,27 @@ func build(ts *treeSpec, rec *recorder) *fiber.App {
 			children[a.Parent] = append(children[a.Parent], i)
 		}
 	}
+	steps := 0
+	step := func() {
+		if steps == ts.StartAt {
+			// first start-up in the middle of the construction: the startup process runs and a
+			// request is served, then the construction goes on
+			rec.slots[0].reset(plan{App: -1})
+			drive.NewDirect(apps[0]).Do(&drive.Req{Method: "GET", URI: "/e", Hdr: []drive.H{{K: "X-Rid", V: "A"}}})
+		}
+		steps++
+	}
+	step()
 	routes := func(i int) {
 		apps[i].Get("/e", rec.endpoint(i))
 		apps[i].Post("/p", rec.endpoint(i))
 		if ts.Apps[i].RootEp {
 			apps[i].Get("/", rec.endpoint(i))
 		}
+		step()
 	}
 	mount := func(p, c int) {
+		defer step()
 		a := &ts.Apps[c]
 		if a.ViaGroup {
 			if k := strings.Index(a.Rel[1:], "/"); k >= 0 {
@@ -334,6 +367,7 @@ func build(ts *treeSpec, rec *recorder) *fiber.App {
 	setup = func(i int) {
 		if ts.Apps[i].Mw {
 			apps[i].Use(rec.middleware(i))
+			step()
 		}
 		if ts.RoutesFirst {
 			routes(i)
@@ -429,10 +463,11 @@ func genTree(r *gen.Rand) *treeSpec {
 			rel = "/"
 		}
 		if rel == "/" {
-			// "/" only directly under the root: a sub-app mounted at "/" inside a mounted
-			// sub-app collides with its parent's key in fiber's app list and can crash the
-			// startup process (outside this property), see corpus nested-slash-same-prefix.
-			if slashChild[p] || p != 0 {
+			// "/" under the root or inside a sub-app mounted under a non-root prefix (the
+			// inner app then has the same absolute prefix as the outer one and is the
+			// innermost). Not inside a sub-app that is itself mounted at "/": the two get
+			// the same key in fiber's app list (known finding, corpus slash-in-slash-startup).
+			if slashChild[p] || (p != 0 && pa.Rel == "/") {
 				continue
 			}
 		}
@@ -451,7 +486,47 @@ func genTree(r *gen.Rand) *treeSpec {
 		})
 	}
 	mixPrefixCase(ts)
+	pickStart(ts)
 	return ts
+}
+
+// buildSteps is the number of registration steps build performs for the tree.
+func (ts *treeSpec) buildSteps() int {
+	n := 0
+	for i := range ts.Apps {
+		n++ // routes
+		if ts.Apps[i].Mw {
+			n++
+		}
+		if i > 0 {
+			n++ // mount
+		}
+	}
+	return n
+}
+
+// pickStart lets a quarter of the trees be built around a first start-up of the root app
+// (own generator derived from the tree, like mixPrefixCase).
+func pickStart(ts *treeSpec) {
+	ts.StartAt = -1
+	cr := gen.New(gen.Hash64("start-at", ts.describe()))
+	// Only for constructions fiber supports after a first start-up. On the unchanged tree
+	// (reported, not generated):
+	//  - outer-first nesting after a start: root started, root.Use("/apix", A(h)), then
+	//    A.Use("/v", B(h)): B never enters the root's app list (appendSubAppLists sits behind
+	//    a sync.Once consumed by the first start), errors under /apix/v go to A's handler;
+	//  - NewCtxFunc + a mount after a start that already had sub-apps: the mount route stays
+	//    in the stack and nextCustom indexes its empty handler list (panic, router.go:143).
+	nested := false
+	for i := 1; i < len(ts.Apps); i++ {
+		nested = nested || ts.Apps[i].Level > 1
+	}
+	if (nested && !ts.BottomUp) || ts.CustomCtx {
+		return
+	}
+	if cr.Chance(1, 3) {
+		ts.StartAt = cr.Intn(ts.buildSteps() + 1)
+	}
 }
 
 // mixPrefixCase gives a third of the trees mount prefixes with upper-case letters (direct,
@@ -529,6 +604,8 @@ func mixCase(r *gen.Rand, s string) string {
 	}
 	return string(b)
 }
+
+var preStatuses = []int{201, 204, 302, 304, 400, 401, 403, 404, 409, 422, 500, 503}
 
 var offSuffix = []string{"x", "-v2", ".v1", "1", "-"}
 
@@ -611,6 +688,13 @@ func genReq(r *gen.Rand, ts *treeSpec) reqSpec {
 		if r.Chance(1, 8) {
 			rq.Plan.App = gen.Pick(r, chain)
 		}
+	}
+	// a status left on the response by something earlier in the chain (own generator, so
+	// the draws above are unchanged)
+	pr := gen.New(gen.Hash64("pre-status", rq.Method, rq.URI, strconv.Itoa(rq.Plan.App), strconv.Itoa(rq.Plan.Pos), strconv.Itoa(rq.Plan.Code)))
+	if pr.Chance(1, 3) {
+		rq.Plan.PreStatus = gen.Pick(pr, preStatuses)
+		rq.Plan.PreWhere = 1 + pr.Intn(3)
 	}
 	return rq
 }
